@@ -60,6 +60,14 @@ def injections(rng, toks, defs, tier):
     out.append(("read-before-assignment", None, {"main.circom": base + "function badv(a) { var x; return a + x; }\n"}, ["main.circom"]))
     second = "pragma circom 2.0.0;\ntemplate Other() { signal input a; signal output b; b <== a; }\ncomponent main = Other();\n"
     out.append(("several-main-components", None, {"main.circom": base_plain, "second.circom": second}, ["main.circom", "second.circom"]))
+    # the failing file is itself named on the command line and is also included by another named file (either order): it stays a
+    # user input, so its errors are displayed (seeded C02 m3)
+    top = base_plain.replace(";\n", ";\ninclude \"lib_bad.circom\";\n", 1)
+    lib_syntax = "pragma circom 2.0.0;\ntemplate LibBroken( { signal input a; }\n"
+    lib_collision = "pragma circom 2.0.0;\nfunction libbad(a, a) { return a; }\n"
+    for nm, lib in (("syntax", lib_syntax), ("collision", lib_collision)):
+        out.append(("named-and-included-%s-lib-first" % nm, None, {"main.circom": top, "lib_bad.circom": lib}, ["lib_bad.circom", "main.circom"]))
+        out.append(("named-and-included-%s-lib-last" % nm, None, {"main.circom": top, "lib_bad.circom": lib}, ["main.circom", "lib_bad.circom"]))
     return out
 
 
